@@ -70,6 +70,22 @@ def read_stream_items(data, selector=None):
         return list(rd)
 
 
+def read_stream_items_two_pass(data, first=1):
+    """The same reader consumed in two passes: the first loop is left after `first` records, a second loop continues."""
+    from flow.record import RecordStreamReader
+    out = []
+    with warnings.catch_warnings():
+        warnings.simplefilter("ignore")
+        rd = RecordStreamReader(io.BytesIO(data))
+        for r in rd:
+            out.append(r)
+            if len(out) >= first:
+                break
+        for r in rd:
+            out.append(r)
+    return out
+
+
 def render_case(items_obs, data, rb_obs, kind="case_ok"):
     descs = []
     for o in items_obs:
